@@ -111,6 +111,7 @@ def run_entry(args):
     irpath, entry, opts, timeout_ms = args
     t0 = time.time()
     res = {"entry": entry, "case": opts.get("case"), "obligations": [], "covers": {}, "violations": [], "errors": [], "undecided": []}
+    ex = None
     try:
         prog = Program(irpath)
         ex = Executor(prog, opts)
@@ -139,6 +140,7 @@ def run_entry(args):
         # level. z3's incremental core simplifies the formulas of one scope together; with a large path-condition-guarded
         # prefix asserted in an outer scope some easy queries (C35) take minutes instead of a second.
         fresh = bool(opts.get("fresh_solver"))
+        bfresh = bool(opts.get("batch_fresh"))
         for na, idxs in sorted(groups.items()):
             if len(idxs) < 4 or fresh:
                 continue
@@ -149,21 +151,29 @@ def run_entry(args):
             rounds_ = 0
             while remaining and rounds_ < 6:
                 rounds_ += 1
-                s.push()
-                s.add(z3.Or(*[z3.And(to_z3_bool(ex.obligations[i].guard), to_z3_bool(b_not(ex.obligations[i].cond))) for i in remaining]))
-                r = s.check()
+                if bfresh:
+                    # opts batch_fresh: a solver that is never pushed runs z3's non-incremental (bit-blasting) pipeline,
+                    # which is several times faster on the one big disjunction of a map/slice-heavy entry
+                    cur = z3.Solver()
+                    for a_ in ex.assumes[:min(na, len(ex.assumes))]:
+                        cur.add(a_)
+                else:
+                    cur = s
+                    cur.push()
+                cur.add(z3.Or(*[z3.And(to_z3_bool(ex.obligations[i].guard), to_z3_bool(b_not(ex.obligations[i].cond))) for i in remaining]))
+                r = cur.check()
                 nq += 1
                 if os.environ.get("VERIF_VERBOSE"):
                     print("   batch of %d obligations (nassume=%d): %s in %.1fs" % (len(remaining), na, r, time.time() - ts), flush=True)
                 if r == z3.unsat:
-                    s.pop()
+                    (None if bfresh else s.pop())
                     batch_ok.update(remaining)
                     break
                 if r != z3.sat:
-                    s.pop()
+                    (None if bfresh else s.pop())
                     break
                 # the model violates at least one obligation of the batch: report those directly, re-batch the others
-                m = s.model()
+                m = cur.model()
                 hit = []
                 for i in remaining:
                     ob = ex.obligations[i]
@@ -171,7 +181,7 @@ def run_entry(args):
                     if z3.is_true(v):
                         hit.append(i)
                 if not hit:
-                    s.pop()
+                    (None if bfresh else s.pop())
                     break
                 vals = []
                 for (n_, term, kind) in ex.nondets:
@@ -183,7 +193,7 @@ def run_entry(args):
                 sch = schedule_of(ex, m)
                 for i in hit:
                     batch_sat[i] = (vals, sch)
-                s.pop()
+                (None if bfresh else s.pop())
                 names_hit = {(ex.obligations[i].kind, ex.obligations[i].name) for i in hit}
                 # other instances of an already violated assertion are not re-proved (one counterexample per assertion)
                 for i in remaining:
@@ -334,7 +344,7 @@ def run_entry(args):
         res["errors"].append("unsupported: " + str(e))
     except Exception as e:
         tb = traceback.format_exception(type(e), e, e.__traceback__)
-        res["errors"].append("exception: " + "".join(tb[-4:])[-1500:] + " || callstack: " + " > ".join(x.split("/")[-1] for x in ex.call_stack[-6:]))
+        res["errors"].append("exception: " + "".join(tb[-4:])[-1500:] + " || callstack: " + " > ".join(x.split("/")[-1] for x in (ex.call_stack[-6:] if ex is not None else [])))
     res["wall_s"] = time.time() - t0
     return res
 
